@@ -18,7 +18,7 @@ fn op_list() -> Vec<String> {
     let mut v = ops_hash::hash_ops();
     v.push("h.poseidon".into());
     v.push("h.poseidon".into());
-    v
+    crate::ops::dev_filter(v)
 }
 
 impl Check for C07 {
@@ -63,7 +63,7 @@ impl Check for C07 {
                 }
             }
         };
-        opcheck::to_json(&Scn { case, fault_seed: rng.u64(), n_plans, only: None })
+        opcheck::to_json(&Scn { case, fault_seed: rng.u64(), n_plans, only: None, only_late: None })
     }
     fn execute(&self, scn: &Value, st: &mut Stats) -> Verdict {
         let s: Scn = match serde_json::from_value(scn.clone()) {
